@@ -363,3 +363,96 @@ def treeify(body, cap=600):
     nb = dict(body)
     nb["mir"] = mir
     return nb
+
+
+def _splice(blocks, locs, cm, dest, target, caller_unwind, at, tag):
+    """Append callee MIR `cm` (already type-substituted, deep copy) to blocks/locs; returns (local offset, entry block index).
+    Callee returns store _0 into `dest` and jump to `target`."""
+    off_l, off_b = len(locs), len(blocks)
+    for l in cm["locals"]:
+        locs.append(l)
+    for cblk in cm["blocks"]:
+        _renumber(cblk["stmts"], off_l)
+        ct = cblk["term"]
+        for fld in ("discr", "p", "cond", "args", "dest"):
+            if fld in ct:
+                _renumber(ct[fld], off_l)
+        if ct["k"] == "call" and ct["f"].get("k") == "indirect":
+            _renumber(ct["f"]["op"], off_l)
+        _retarget(ct, lambda b: b + off_b)
+        if ct["k"] == "return":
+            cblk["stmts"].append({"k": "assign", "lhs": copy.deepcopy(dest), "rv": {"k": "use", "op": {"k": "move", "p": {"l": off_l, "p": []}}}, "at": at})
+            cblk["term"] = {"k": "goto", "target": target, "at": ct.get("at"), "exp": ct.get("exp")} if target is not None else {"k": "unreachable", "at": ct.get("at"), "exp": ct.get("exp")}
+        elif ct["k"] == "resume" and caller_unwind is not None:
+            cblk["term"] = {"k": "goto", "target": caller_unwind, "at": ct.get("at"), "exp": ct.get("exp")}
+        elif ct["k"] in ("call", "drop", "assert") and ct.get("unwind") == "continue" and caller_unwind is not None and not cblk["cleanup"]:
+            ct["unwind"] = {"cleanup": caller_unwind}
+        cblk["inl"] = tag
+        blocks.append(cblk)
+    return off_l, off_b
+
+
+OPTION_COMBINATORS = {"core::option::Option::<T>::map_or": "map_or", "core::option::Option::<T>::unwrap_or": "unwrap_or",
+                      "core::option::Option::<T>::map_or_else": None}
+
+
+def desugar_option_calls(db, body):
+    """`opt.map_or(d, |x| e)` and `opt.unwrap_or(d)` rewritten as the `match` they are (the closure literal expanded in the Some arm),
+    so a clamp written with a combinator is the same code to the rules as one written with `match`."""
+    mir = None
+    for bi, blk0 in enumerate(body["mir"]["blocks"]):
+        t0 = blk0["term"]
+        if not (t0["k"] == "call" and t0["f"].get("k") == "fn" and OPTION_COMBINATORS.get(t0["f"]["def"]) and not blk0["cleanup"] and t0.get("target") is not None):
+            continue
+        if mir is None:
+            mir = copy.deepcopy(body["mir"])
+        blocks, locs = mir["blocks"], mir["locals"]
+        blk = blocks[bi]
+        t = blk["term"]
+        kind = OPTION_COMBINATORS[t["f"]["def"]]
+        opt = t["args"][0]
+        if opt.get("k") not in ("move", "copy"):
+            continue
+        optp = opt["p"]
+        unwind = t["unwind"]["cleanup"] if isinstance(t.get("unwind"), dict) else None
+        payload_ty = [a for a in t["f"].get("args", []) if a.get("k") != "region"][0]
+        cb = None
+        if kind == "map_or":
+            clop = t["args"][2]
+            cty = locs[clop["p"]["l"]]["ty"] if clop.get("k") in ("move", "copy") and not clop["p"]["p"] else None
+            cb = db.by_path.get(cty["def"]) if cty is not None and cty.get("k") == "closure" else None
+            if cb is None or cb["mir"]["arg_count"] != 2:
+                continue
+        # discriminant + switch
+        locs.append({"ty": {"k": "prim", "n": "isize"}, "s": "isize"})
+        ld = len(locs) - 1
+        none_b = {"cleanup": False, "stmts": [{"k": "assign", "lhs": copy.deepcopy(t["dest"]), "rv": {"k": "use", "op": copy.deepcopy(t["args"][1])}, "at": t.get("at")}],
+                  "term": {"k": "goto", "target": t["target"], "at": t.get("at"), "exp": t.get("exp")}, "inl": "desugar"}
+        blocks.append(none_b)
+        none_i = len(blocks) - 1
+        some_payload = {"l": optp["l"], "p": list(optp["p"]) + [{"down": 1}, {"f": 0, "ty": payload_ty}]}
+        if kind == "unwrap_or":
+            some_b = {"cleanup": False, "stmts": [{"k": "assign", "lhs": copy.deepcopy(t["dest"]), "rv": {"k": "use", "op": {"k": "move", "p": some_payload}}, "at": t.get("at")}],
+                      "term": {"k": "goto", "target": t["target"], "at": t.get("at"), "exp": t.get("exp")}, "inl": "desugar"}
+            blocks.append(some_b)
+            some_i = len(blocks) - 1
+        else:
+            cm = copy.deepcopy(cb["mir"])
+            off_l, off_b = _splice(blocks, locs, cm, t["dest"], t["target"], unwind, t.get("at"), cb["key"])
+            env_ty = cm["locals"][1]["ty"] if len(cm["locals"]) > 1 else None
+            binds = []
+            if env_ty is not None and env_ty.get("k") == "ref":
+                binds.append({"k": "assign", "lhs": {"l": off_l + 1, "p": []}, "rv": {"k": "ref", "mut": bool(env_ty.get("mut")), "bk": "Shared", "p": copy.deepcopy(clop["p"])}, "at": t.get("at")})
+            else:
+                binds.append({"k": "assign", "lhs": {"l": off_l + 1, "p": []}, "rv": {"k": "use", "op": copy.deepcopy(clop)}, "at": t.get("at")})
+            binds.append({"k": "assign", "lhs": {"l": off_l + 2, "p": []}, "rv": {"k": "use", "op": {"k": "move", "p": some_payload}}, "at": t.get("at")})
+            some_b = {"cleanup": False, "stmts": binds, "term": {"k": "goto", "target": off_b, "at": t.get("at"), "exp": t.get("exp")}, "inl": "desugar"}
+            blocks.append(some_b)
+            some_i = len(blocks) - 1
+        blk["stmts"].append({"k": "assign", "lhs": {"l": ld, "p": []}, "rv": {"k": "discr", "p": copy.deepcopy(optp)}, "at": t.get("at")})
+        blk["term"] = {"k": "switch", "discr": {"k": "move", "p": {"l": ld, "p": []}}, "targets": [[0, none_i]], "otherwise": some_i, "at": t.get("at"), "exp": t.get("exp")}
+    if mir is None:
+        return body
+    nb = dict(body)
+    nb["mir"] = mir
+    return nb
